@@ -203,7 +203,7 @@ def expected_columns(center, method, rs):
     return sorted(base)
 
 
-def record_compute_features(case, call=None, stub=None, opts_obj=None):
+def record_compute_features(case, call=None, stub=None, opts_obj=None, repeat=1):
     """Run compute_features (or `call(sig, fs, f_range, **opts)`) on a generated case and return the trace case."""
     from bycycle.features import compute_features
     opts = {k: v for k, v in case['opts'].items()}
@@ -224,7 +224,11 @@ def record_compute_features(case, call=None, stub=None, opts_obj=None):
     sig_run = sig.copy()
     with interpose.replaced(rec.mapping()):
         try:
-            df = (call or compute_features)(sig_run, fs, f_range, **opts_run)
+            # repeat > 1: the user calls again with the SAME signal array and the SAME option objects; the LAST call is the one judged
+            for _ in range(max(1, repeat)):
+                for lst in rec.ev.values():
+                    del lst[:]
+                df = (call or compute_features)(sig_run, fs, f_range, **opts_run)
         except Exception as ex:       # the raise is the event
             raised = type(ex).__name__ + ':' + str(ex)[:80]
     thr_full = dict(DEFAULT_THR)
@@ -245,7 +249,7 @@ def record_compute_features(case, call=None, stub=None, opts_obj=None):
         'filt': _one(rec.ev['filt'], EMPTY['filt']), 'flen': _one(rec.ev['flen'], EMPTY['flen']),
         'amp': _one(rec.ev['amp'], EMPTY['amp']), 'dt': _one(rec.ev['dt'], EMPTY['dt']),
         'ext': _one(rec.ev['ext'], EMPTY['ext']), 'zx': _one(rec.ev['zx'], EMPTY['zx']),
-        'sig_untouched': bool(np.array_equal(sig_run, sig)),
+        'sig_untouched': bool(np.array_equal(sig_run, sig)), 'calls': int(max(1, repeat)),
     }
     if df is not None:
         max_den = 1000000
